@@ -37,7 +37,7 @@ def gen_script(rng):
     last_good = start - GRACE
     steps = []
     for i in range(n):
-        mode = rng.choice([1, 1, 1, 0, 2, 3, 3])
+        mode = rng.choice([1, 1, 1, 0, 2, 3, 3, 4, 4])      # 1 tracking reply; silent: 0 wrong sequence, 2 garbage, 3 no socket, 4 a well-formed reply without tracking data
         d = rng.choice([0, 1000, 10 ** 6, 10 ** 8, 2 * NS])
         e = rng.choice([0, 0, 1, 1000])
         refid = cfg if (cfg >= 0 and rng.random() < 0.5) else (near_miss(rng, cfg) if (cfg >= 0 and rng.random() < 0.6) else rng.randrange(2 ** 31))
